@@ -110,7 +110,7 @@ def gen_ontology_spec(rng):
         items.append(['source', s])
     et = G.base_eventtype()
     if rng.random() < 0.6:
-        et['relations'] = [G.base_relation('p', 'q')]
+        et['relations'] = [G.base_relation('p', 'q', confidence=rng.choice([5, 5, None, 10]))]
     if rng.random() < 0.4:
         et['props'][0]['assocs'] = [G.base_assoc('c.a')]
         if rng.random() < 0.4:
